@@ -344,6 +344,59 @@ func (fx *fixture) wrongPriority() []*fcase {
 		fmt.Sprintf("proposer %s (%d seats) declares the maximal priority 0xff..ff instead of the one its VRF value gives%s", p.name(), j, needAll(p)))}
 }
 
+// rogueKeyCase: a validator that registered the BLS public key g^x - sum(pk_i) (see
+// rogueValKey) builds its own block, lists the precommit credentials the honest voters revealed
+// when they voted for the HONEST block at this round index (sortition proofs do not name the
+// block), and supplies H(payload)^x as the "aggregate". No honest validator signed this hash.
+func (fx *fixture) rogueKeyCase() []*fcase {
+	var R *val
+	for _, v := range fx.vals {
+		if v.rogue {
+			R = v
+		}
+	}
+	if R == nil || R.rec == nil {
+		return nil
+	}
+	vidx := fx.ctx.Index // the votes keep the index at which the honest proofs were made
+	seats := func(i uint32) uint32 {
+		_, ps := fx.seatsAt(i)
+		return ps[fx.pos(R)]
+	}
+	pidx := vidx
+	if seats(pidx) == 0 {
+		pidx = fx.findIndex(60, func(i uint32) bool { return seats(i) > 0 })
+	}
+	if pidx == 0 {
+		return nil
+	}
+	cd, pj := fx.credential(fx.honestSpec(R, pidx))
+	h := fx.reheader(cd, R.key.Priv)
+	var es []entry
+	own := fx.mkVote(R, R.key, R.rec.Stake, fx.ctx.TotalStake, fx.ctx.Seed, vidx, stepPrecommit, fx.T, h.Hash(), fx.N, vidx)
+	own.tag = "rogue"
+	for _, v := range fx.vals {
+		if !v.voter() {
+			continue
+		}
+		if e, ok := fx.honestEntryOf(v); ok {
+			e.legit, e.tag = false, "hijacked"
+			es = append(es, e)
+			continue
+		}
+		// no revealed credential (zero seats at this index): listed with a useless proof, only
+		// so that its public key enters the verifier's key list
+		es = append(es, entry{v: v, sv: own.sv, tag: "filler"})
+		es[len(es)-1].sv.VoterIdx = v.idx
+	}
+	es = append(es, own)
+	agg := R.key.BlsSk.Sign(chainkit.VotePayload(h.Hash(), fx.N, vidx)).Compress()
+	h.Validator = section(vidx, es, agg[:], false)
+	return []*fcase{{kind: "rogue-bls-key", hdr: h, legit: 0, claimed: weightOf(es, false),
+		why: fmt.Sprintf("validator %s registered the BLS public key g^x - sum(pk of every other online chamber validator) (no proof of possession at registration); it proposes its own block (credential of round index %d, %d seats), lists the precommit credentials the honest voters revealed for the honest block at round index %d and signs ALONE: the aggregate field is H(payload)^x; one registered validator, no other key | entries: %s",
+			R.name(), pidx, pj, vidx, entryNames(es))}}
+}
+
 // ---- observations: offered, logged and counted, not judged (see Assumptions) ----
 
 func (fx *fixture) obsNonVoterProposer(house bool) []*fcase {
@@ -488,6 +541,22 @@ func (fx *fixture) bestBelow(idx uint32) ([]*val, uint64) {
 	return ms, bestSum
 }
 
+// obsCertThreshold: the author declares CertValThreshold=1. Nothing in this (non-certificate)
+// round uses it, but verifyConsensusFieldMain (consensus.go:309) and VerifyAcHeader
+// (consensus.go:680) later take the certificate committee size from the consensus data of the
+// certificate look-back header, i.e. from this field.
+func (fx *fixture) obsCertThreshold() []*fcase {
+	p := fx.proposer
+	idx := fx.ctx.Index
+	sp := fx.honestSpec(p, idx)
+	sp.fC = 1
+	cd, _ := fx.credential(sp)
+	h := fx.reheader(cd, p.key.Priv)
+	c := fx.withFreshQuorum("declared-cert-threshold-1", h, idx, fmt.Sprintf("the honest credential of %s with CertValThreshold=1 declared (protocol: %d)", p.name(), fx.Tc))
+	c.observe = true
+	return []*fcase{c}
+}
+
 func (fx *fixture) obsRoundFieldMismatch() []*fcase {
 	p := fx.proposer
 	idx := fx.ctx.Index
@@ -539,7 +608,7 @@ func (fx *fixture) runCases() {
 		}
 		gens = append(gens, gen{n, func() []*fcase { return fx.voteCase(n) }})
 	}
-	for _, n := range []string{"aggregate-of-subset", "aggregate-garbage", "aggregate-empty", "aggregate-other-message", "votes-in-house-section"} {
+	for _, n := range []string{"aggregate-of-subset", "aggregate-garbage", "aggregate-empty", "aggregate-other-message", "lone-vote-bad-signature", "votes-in-house-section"} {
 		n := n
 		gens = append(gens, gen{n, func() []*fcase { return fx.aggregateCases(n) }})
 	}
@@ -557,6 +626,7 @@ func (fx *fixture) runCases() {
 		gen{"proposer-outsider", fx.outsiderProposer},
 		gen{"proposer-inflated-seats", fx.inflatedSubUsers},
 		gen{"proposer-wrong-priority", fx.wrongPriority},
+		gen{"rogue-bls-key", fx.rogueKeyCase},
 		gen{"combo-1", fx.comboCase},
 		gen{"combo-2", fx.comboCase},
 		gen{"combo-3", fx.comboCase},
@@ -565,6 +635,7 @@ func (fx *fixture) runCases() {
 		gen{"obs-votes-at-later-index", fx.obsVotesAtLaterIndex},
 		gen{"obs-votes-at-earlier-index", fx.obsVotesAtEarlierIndex},
 		gen{"obs-round-field-mismatch", fx.obsRoundFieldMismatch},
+		gen{"obs-declared-cert-threshold", fx.obsCertThreshold},
 	)
 	for _, g := range gens {
 		if fx.poisoned {
